@@ -90,15 +90,19 @@ func ruleP13Translate(p *Prog, r *Report) {
 	}
 	r.check(strip(fc[0].Common().Args[0]) == ssa.Value(f.Params[2]), rule, "filter-call:records", p.instrPos(fc[0]), "Filter receives the records given", "Filter is not applied to the records given")
 	for _, ret := range returnsOf(f) {
-		r.check(strip(ret.Results[0]) == fc[0].Value(), rule, "filter-call:returned", p.instrPos(ret), "returns Filter's result", "ApplyFilter does not return the filtered records")
+		r.check(strip(retResult(ret, 0)) == fc[0].Value(), rule, "filter-call:returned", p.instrPos(ret), "returns Filter's result", "ApplyFilter does not return the filtered records")
 	}
 	// the shortcut period: a local closure's result tested for nil
 	var shortcut ssa.Value
 	var shortcutFn *ssa.Function
 	eachInstr(f, func(in ssa.Instruction) {
 		if c, ok := in.(*ssa.Call); ok {
-			if g := staticCallee(c); g != nil && g.Parent() == f && typeNameOf(c.Type()) == "Period" {
-				shortcut, shortcutFn = c, g
+			// a local closure, or the same selection as a helper function / method of the package
+			if g := staticCallee(c); g != nil && (g.Parent() == f || isHelper(g)) && typeNameOf(c.Type()) == "Period" {
+				shortcut, shortcutFn = c, originFn(g)
+				if isHelper(g) {
+					ht.ctx[originFn(g)] = c
+				}
 			}
 		}
 	})
@@ -259,7 +263,7 @@ func ruleP13Translate(p *Prog, r *Report) {
 			switch t := rb.Instrs[len(rb.Instrs)-1].(type) {
 			case *ssa.Return:
 				nRet++
-				if d := describeShortcut(t.Results[0]); d != want {
+				if d := describeShortcut(retResult(t, 0)); d != want {
 					okAll = false
 					detail = "returns " + d + " at " + p.instrPos(t)
 				}
@@ -282,9 +286,9 @@ func ruleP13Translate(p *Prog, r *Report) {
 	}
 	sawNil := false
 	for _, ret := range returnsOf(shortcutFn) {
-		if isNilConst(ret.Results[0]) {
+		if isNilConst(retResult(ret, 0)) {
 			sawNil = true
-		} else if describeShortcut(ret.Results[0]) == "?" {
+		} else if describeShortcut(retResult(ret, 0)) == "?" {
 			r.bad(rule, "shortcut:value", p.instrPos(ret), "the shortcut selection returns a period that is not New<K>FromDate(today)[.Previous()].Period()")
 		}
 	}
@@ -401,6 +405,42 @@ func ruleP13Clauses(p *Prog, r *Report) {
 			if pb.Succs[1] == header {
 				cs = 1
 			}
+			// a boolean helper that bundles several clauses: `if !matches(o, r) { continue }` —
+			// every `return false` of the helper is a skip edge of its own
+			if g0 := flattenCond(t.Cond, cs == 0, t)[0]; !g0.Pol {
+				if hc, _ := g0.Cond.(*ssa.Call); hc != nil && isHelper(rawStaticCallee(hc)) {
+					h := originFn(rawStaticCallee(hc))
+					expanded := 0
+					vcall{call: hc, chain: []ssa.CallInstruction{hc}}.run(func() {
+						for _, ret := range returnsOf(h) {
+							if b, isB := constBool(retResult(ret, 0)); !isB || b {
+								continue
+							}
+							for _, rp := range ret.Block().Preds {
+								iff2, isIf := rp.Instrs[len(rp.Instrs)-1].(*ssa.If)
+								if !isIf {
+									continue
+								}
+								cs2 := 0
+								if rp.Succs[1] == ret.Block() {
+									cs2 = 1
+								}
+								d2 := clause(rp, iff2, cs2)
+								expanded++
+								if _, ok := want[d2]; ok {
+									seen[d2] = true
+									r.ok(rule, "skip:"+d2, p.instrPos(iff2), "skip edge (inside %s) is the %s", h.Name(), want[d2])
+								} else {
+									r.bad(rule, "skip:"+d2, p.instrPos(iff2), "a record is skipped (inside %s) under a condition that is none of the five clauses: %s", h.Name(), d2)
+								}
+							}
+						}
+					})
+					if expanded > 0 {
+						continue
+					}
+				}
+			}
 			d := clause(pb, t, cs)
 			if _, ok := want[d]; ok {
 				seen[d] = true
@@ -441,7 +481,7 @@ func ruleP13Clauses(p *Prog, r *Report) {
 	// no early exit: every return is dominated only via the header's exit edge and returns the accumulator
 	for _, ret := range returnsOf(f) {
 		okExit := len(ret.Block().Preds) == 1 && ret.Block().Preds[0] == header
-		ph, isPhi := strip(ret.Results[0]).(*ssa.Phi)
+		ph, isPhi := strip(retResult(ret, 0)).(*ssa.Phi)
 		r.check(okExit && isPhi && ph.Block() == header, rule, "no-early-exit", p.instrPos(ret), "the loop is left only after the last record; the accumulated slice is returned", "the loop can be left early (break/return) or does not return the accumulated records")
 	}
 	// blocks inside the loop may not jump out other than via header
@@ -613,7 +653,7 @@ func ruleP13Decoders(p *Prog, r *Report) {
 			}
 			if len(emptySucc.Preds) == 1 {
 				msg := rejectComplete(emptySucc, func(ret *ssa.Return) string {
-					if p.nilnessAt(ret.Block(), ret.Results[0], 0) != nnNonNil {
+					if p.nilnessAt(ret.Block(), retResult(ret, 0), 0) != nnNonNil {
 						return "returns nil for the empty value"
 					}
 					return ""
@@ -686,7 +726,7 @@ func ruleP13Decoders(p *Prog, r *Report) {
 		// success return after Set
 		for _, ret := range returnsOf(m) {
 			if set.Block().Dominates(ret.Block()) {
-				r.check(isNilConst(ret.Results[0]), rule, d.fn+":success", p.instrPos(ret), "nil after storing", "returns an error although the value was stored")
+				r.check(isNilConst(retResult(ret, 0)), rule, d.fn+":success", p.instrPos(ret), "nil after storing", "returns an error although the value was stored")
 			}
 		}
 	}
@@ -756,7 +796,7 @@ func ruleP13SortCopy(p *Prog, r *Report) {
 	var sorted ssa.Value
 	okCopy := false
 	for _, ret := range returnsOf(f) {
-		sorted = deref(ret.Results[0])
+		sorted = deref(retResult(ret, 0))
 		if c, ok := sorted.(*ssa.Call); ok {
 			if bi, ok := c.Call.Value.(*ssa.Builtin); ok && bi.Name() == "append" {
 				okCopy = isNilConst(c.Call.Args[0]) && strip(c.Call.Args[1]) == ssa.Value(rs)
@@ -848,7 +888,29 @@ func ruleP13SortCopy(p *Prog, r *Report) {
 				}
 			}
 		}
-		seen[mode] = describe(ret.Results[0])
+		// `return isAscending == startWithOldest`: both modes in one expression
+		if bo, ok := strip(retResult(ret, 0)).(*ssa.BinOp); ok && (bo.Op == token.EQL || bo.Op == token.NEQ) {
+			other := ssa.Value(nil)
+			if deref(bo.X) == ssa.Value(asc) {
+				other = bo.Y
+			} else if deref(bo.Y) == ssa.Value(asc) {
+				other = bo.X
+			}
+			if other != nil {
+				d := describe(other)
+				nd := "!" + d
+				if strings.HasPrefix(d, "!") {
+					nd = d[1:]
+				}
+				if bo.Op == token.EQL {
+					seen["asc"], seen["desc"] = d, nd
+				} else {
+					seen["asc"], seen["desc"] = nd, d
+				}
+				continue
+			}
+		}
+		seen[mode] = describe(retResult(ret, 0))
 	}
 	// ascending: less(i,j) true when date[j] >= date[i] (or its strict form !(i>=j)); descending: the negation
 	okAsc := seen["asc"] == "j>=i" || seen["asc"] == "!i>=j"
